@@ -79,6 +79,7 @@ func panicClass(msg string) string {
 }
 
 func runBehaviour(w World, id int, steps []Step) *Mismatch {
+	baseLogging() // every family runs under the logging configuration of VERIF_LOG (C19)
 	w.Begin()
 	var mm *Mismatch
 	for i, st := range steps {
